@@ -129,3 +129,17 @@ func verifLemma_C07_iterator_survives_edits(a, b, c, d int) {
 	verifrt.Assert(!it.Next(), "does-not-return-deleted-value")
 	verifrt.Assert(t.Validate() && t.Len() == 2, "tree-still-valid")
 }
+
+// Thorough tier: four keys in any order, then any one of them deleted.
+func verifLemma_C07_four_then_delete(a, b, c, d, k int) {
+	verifrt.Assume(a != b && a != c && a != d && b != c && b != d && c != d)
+	verifrt.Assume(k == a || k == b || k == c || k == d)
+	t := newTreeList(vIntValues{})
+	t.Insert(a)
+	t.Insert(b)
+	t.Insert(c)
+	t.Insert(d)
+	verifHelper_C07_inorder(t, 4)
+	t.DeleteKey(k)
+	verifHelper_C07_inorder(t, 3)
+}
